@@ -2572,7 +2572,9 @@ static iwrc _jbl_target_apply_patch(struct jbl_node *target, const struct jbl_pa
     }
   } else { // Not a root
     if ((op == JBP_REMOVE) || (op == JBP_REPLACE)) {
-      _jbl_node_detach(target, ex->path);
+      if (!_jbl_node_detach(target, ex->path)) { // rfc6902: the target location must exist
+        return JBL_ERROR_PATH_NOTFOUND;
+      }
     }
     if (op == JBP_REMOVE) {
       return 0;
